@@ -73,7 +73,7 @@ def showModel (q : Quirks) (m : ClassModel) : String :=
 
 /-- The quirk setting of the code as it is now. Switch a flag off in the /verif commit that records the repair of the
 corresponding defect (F-C06-1 = `sameAssocFkNames`, F-C06-2 = `builtinsOnlyWhenUsed`): `model=` and `trig=` follow. -/
-def current : Quirks := ⟨true, true⟩
+def current : Quirks := ⟨false, false⟩
 
 def run (s : Sexp) : String :=
   match s with
